@@ -565,6 +565,26 @@ func RunHistory(ini Init, family string, withDump bool, next func(in *inst, step
 			if !ok {
 				break
 			}
+			switch op.K {
+			case "Update":
+				if in.gapStart(arg(op, 4), arg(op, 3)*ini.Spe, true) {
+					cj.Feat["gap_anchor_updates"]++
+				}
+			case "FindHead":
+				if in.gapStart(arg(op, 0), arg(op, 1), false) {
+					cj.Feat["gap_start_heads"]++
+				}
+			case "Head":
+				if w, ok := forkchoice.VerifDumpWrapper(in.fc); ok {
+					if w.Pin != nil {
+						if in.gapStart(CounterOf(w.Pin.Root), uint64(w.Pin.Slot), false) {
+							cj.Feat["gap_start_heads"]++
+						}
+					} else if in.gapStart(CounterOf(w.Justified.Root), uint64(w.Justified.Epoch)*ini.Spe, false) {
+						cj.Feat["gap_start_heads"]++
+					}
+				}
+			}
 			res, c := in.exec(op)
 			var log []SinkCall
 			if op.K == "Update" {
@@ -613,6 +633,28 @@ func RunHistory(ini Init, family string, withDump bool, next func(in *inst, step
 	}
 	coq := fmt.Sprintf("mkCase %s %s [\n    %s]", ini.Coq(), cj.InitGo, strings.Join(steps, ";\n    "))
 	return Case{Coq: coq, Kind: family, JSON: cj}, cj
+}
+
+// gapStart: (root, slot) is a known empty-slot node above the first slot known for its root, and (needBlocks) some block built on that
+// root after that slot hangs off the root's first node: the shape of fixes/C10-gap-anchor-prune-head.diff
+func (in *inst) gapStart(root, slot uint64, needBlocks bool) bool {
+	d, ok := proto.VerifDumpArray(in.graph)
+	if !ok {
+		return false
+	}
+	low, known := d.BlockSlots[RootOf(root)]
+	if !known || uint64(low) >= slot {
+		return false
+	}
+	if _, ok := d.Indices[forkchoice.NodeRef{Root: RootOf(root), Slot: common.Slot(slot)}]; !ok {
+		return false
+	}
+	for _, n := range d.Nodes {
+		if n.ParentRoot == RootOf(root) && n.Ref.Root != RootOf(root) && uint64(n.Ref.Slot) > slot {
+			return true
+		}
+	}
+	return !needBlocks
 }
 
 // strayNodes counts the nodes of the array that do not reach its first node along transition parents,
